@@ -4,6 +4,7 @@ from ..shapes import F, Catalogue, Shape, STD_ENUM, Bounds
 from ..spec import specmsg as sm, specwire as sw
 from ..sym import SymBool, SymBytes, SymInt
 
+WARMUP = True  # a concrete first use of the harness before each path (vf/explore.py: WarmEnv)
 PROPERTY = "C17"
 
 
